@@ -258,8 +258,25 @@ func (g *pgen) expr(t gtype) gexpr {
 		case 5:
 			return gexpr{"!" + g.expr(tBool).at(pPrefix), pPrefix}
 		case 6:
-			// mixed int/float comparison
-			return bin(g.expr(tInt), "<", g.expr(tFloat), pLess, false)
+			// mixed int/float comparison, often on numerically equal values
+			ops := []string{"<", "<=", ">", ">=", "==", "!="}
+			op := ops[g.pick(6)]
+			pr := pLess
+			if op == "==" || op == "!=" {
+				pr = pEquals
+			}
+			if g.chance(50) {
+				k := g.pick(6)
+				l, rr := gexpr{strconv.Itoa(k), pAtom}, gexpr{strconv.Itoa(k) + ".0", pAtom}
+				if vs := g.varsOf(tInt); len(vs) > 0 && g.chance(50) {
+					l = gexpr{vs[g.pick(len(vs))].name, pAtom}
+				}
+				if g.chance(50) {
+					l, rr = rr, l
+				}
+				return bin(l, op, rr, pr, false)
+			}
+			return bin(g.expr(tInt), op, g.expr(tFloat), pr, false)
 		default:
 			if fs := g.funcsRet(tBool); len(fs) > 0 {
 				return g.call(fs[g.pick(len(fs))])
